@@ -211,6 +211,7 @@ func runC18(c *Ctx, tier string) {
 	c18Buffered(c)
 	c.Rule("C18-E5", "a writer that wraps a closer closes it: every nil return of its Close has closed the wrapped io.WriteCloser")
 	c18CloseReaches(c)
+	runLoopErrorNotOverwritten(c, "C18-E7", append(append([]string{}, c18Pkgs...), "cli/outputflags", "zio/emitter", "pkg/bufwriter")...)
 	runDeferredOverwrite(c, "C18-E6", append(append([]string{}, c18Pkgs...), "cli/outputflags", "pkg/storage", "zio/parquetio", "zio/arrowio", "lake/commits", "lake/journal", "service", "runtime/sam/op/spill")...)
 	c.Floor("C18-E1", 90)
 	c.Floor("C18-E4", 4)
